@@ -240,3 +240,21 @@ def c01d(ctx):
             ctx.ok('%s:axis-clean' % f.short, 'no expression mixes X and Y quantities (qualifier system of C03.a)', f)
         for k, (node, msg) in enumerate(reps):
             ctx.bad('%s:axis-mix%d' % (f.short, k), msg, f, node)
+
+
+@rule('C01.e', floor=3)
+def c01e(ctx):
+    """upstream request construction: the bbox/size/srs of a query are set on a private copy of the request template
+    (shared rule C17.g) -- otherwise concurrent requests fetch each other's ground area"""
+    sub = run_property(ctx.repo, 'C17', ctx.tier, only={'C17.g'})
+    for er in sub.errors:
+        raise Undecided('shared rule %s: %s' % er)
+    for o in sub.obs:
+        (ctx.ok if o.status == 'ok' else ctx.bad)('%s:%s' % (o.rule, o.construct), o.msg, o.where)
+    ctx.stats['functions'] |= sub.stats['functions']
+    fn = ctx.fn('mapproxy/client/wms.py:WMSClient._query_req')
+    want = {'req.params.bbox': 'query.bbox', 'req.params.size': 'query.size', 'req.params.srs': 'query.srs.srs_code', 'req.params.format': 'format'}
+    got = {unparse(s.targets[0]): unparse(s.value) for s in fn.walk() if isinstance(s, ast.Assign)}
+    ok = all(got.get(k) == v for k, v in want.items())
+    ctx.check(ok, 'WMSClient._query_req:query-to-params', 'bbox, size, srs code and format of the query are what is written into the upstream request', fn,
+              fail='the upstream request parameters are not the bbox/size/srs/format of the query: %s' % {k: got.get(k) for k in want})
